@@ -42,7 +42,7 @@ func main() {
 		Level: "exploration",
 		Rule: "terms of the closure language of harness/mini/enum_cl.go (statements: declare, write, read, create closure, create-and-store in a list, call, call list element, " +
 			"pass to a method, for-in loop, closure frame / method frame returning its closures, method frame ending in a tail call) pruned to well-formed ones (every closure captures, every variable is captured, " +
-			"every closure is used, stored closures are called); layer A = closures, nesting and closure frames over ≤ 2 variables; layer B = all statements over ≤ 3 variables; layer C = B without loops and lists; " +
+			"every closure is used, stored closures are called); layer A = closures, nesting and closure frames over ≤ 2 variables; layer B = all statements over ≤ 3 variables; layer C = B without loops, lists and tail-call frames; " +
 			"quick: B with ≤ 5 statements as top-level code and as a method body, A with 6–7 as top-level code; thorough: B with ≤ 6 and A with 7 both ways, A with 8 as top-level code, C with 7 as a method body; " +
 			"every program run with the default stack and, when the " +
 			"closure-free growth canary passes, again with a 64-slot initial value stack and recursion hooks after every closure creation and at the start of every closure body; " +
@@ -53,7 +53,7 @@ func main() {
 		},
 		Setup:            func(c *engine.Ctx) { elkrun.Init() },
 		Run:              run,
-		CaseTimeout:      120 * time.Second,
+		CaseTimeout:      10 * time.Minute,
 		QuickDeadline:    6 * time.Minute,
 		ThoroughDeadline: 40 * time.Minute,
 	})
@@ -69,7 +69,7 @@ type layer struct {
 func layers(thorough bool) []layer {
 	a := mini.ClOpts{MaxVars: 2, MaxNest: 3, Frames: "c"}
 	b := mini.ClOpts{MaxVars: 3, MaxNest: 3, Loops: true, List: true, Pass: true, Frames: "cmt"}
-	cc := mini.ClOpts{MaxVars: 3, MaxNest: 3, Pass: true, Frames: "cmt"}
+	cc := mini.ClOpts{MaxVars: 3, MaxNest: 3, Pass: true, Frames: "cm"}
 	both, top, meth := []string{"top", "method"}, []string{"top"}, []string{"method"}
 	if !thorough {
 		return []layer{{"B", b, 1, 5, both}, {"A", a, 6, 7, top}}
@@ -284,20 +284,29 @@ func runChunk(r *engine.R, cs []*mini.ClCase, mode, site string) {
 			tail += " (only after earlier independent terms ran in the same program)"
 		}
 		switch {
+		case u.TimedOut:
+			r.Count("child_timeouts_not_observed", 1)
+			r.Capped("a child process exceeded its time limit (overloaded machine?); the term was not observed")
 		case u.Rejected:
 			r.Count("rejected_by_checker", 1)
 			r.Note("rejected: " + cc.Shape() + ": " + firstLine(u.Diags))
 			r.Outcome("rejected by the checker")
 		case u.Panic != "":
 			sig := fmt.Sprintf("%s: go-panic %s%s", modeName, shortPanic(u.Panic), tail)
-			if u.Panic == mini.HostCrash {
+			if hasFeature(cc, "tail-call") {
+				// the frame of a tail call is reused while its variables are captured: what the stale slots hold
+				// decides between a Go panic, a fatal runtime error and an Elk error, so these share a signature
+				sig = fmt.Sprintf("%s: crash (Go panic, fatal runtime error or spurious Elk error) or wrong value%s", modeName, tail)
+			} else if u.Panic == mini.HostCrash {
 				sig = fmt.Sprintf("%s: the process running the program died (fatal Go runtime error)%s", modeName, tail)
-			} else if hasFeature(cc, "tail-call") {
-				sig = fmt.Sprintf("%s: go-panic%s", modeName, tail)
 			}
 			r.Violation(sig, fmt.Sprintf("term %s (site %s)\n%s\nexpected output:\n%s\nGo panic: %s\n%s", cc.Shape(), site, srcs[i], want, u.PanicMsg, trimStack(u.Stack)), srcs[i])
 		case u.Err != "":
-			r.Violation(fmt.Sprintf("%s: unexpected error %s%s", modeName, u.ErrClass, tail), fmt.Sprintf("term %s (site %s)\n%s\nexpected output:\n%s\nuncaught error: %s\noutput so far:\n%s", cc.Shape(), site, srcs[i], want, u.Err, u.Out), srcs[i])
+			sig := fmt.Sprintf("%s: unexpected error %s%s", modeName, u.ErrClass, tail)
+			if hasFeature(cc, "tail-call") {
+				sig = fmt.Sprintf("%s: crash (Go panic, fatal runtime error or spurious Elk error) or wrong value%s", modeName, tail)
+			}
+			r.Violation(sig, fmt.Sprintf("term %s (site %s)\n%s\nexpected output:\n%s\nuncaught error: %s\noutput so far:\n%s", cc.Shape(), site, srcs[i], want, u.Err, u.Out), srcs[i])
 		case u.Out != want:
 			wl, gl := lines(want), lines(u.Out)
 			j := 0
@@ -308,7 +317,11 @@ func runChunk(r *engine.R, cs []*mini.ClCase, mode, site string) {
 			if j < len(wl) {
 				origin = wants[i].Origin[j]
 			}
-			r.Violation(fmt.Sprintf("%s: wrong value at %s%s", modeName, origin, tail),
+			sig := fmt.Sprintf("%s: wrong value at %s%s", modeName, origin, tail)
+			if hasFeature(cc, "tail-call") {
+				sig = fmt.Sprintf("%s: crash (Go panic, fatal runtime error or spurious Elk error) or wrong value%s", modeName, tail)
+			}
+			r.Violation(sig,
 				fmt.Sprintf("term %s (site %s)\n%s\nfirst divergence at line %d (%s)\nexpected: %s\nobserved: %s", cc.Shape(), site, srcs[i], j+1, origin, strings.Join(wl, " "), strings.Join(gl, " ")), srcs[i])
 		default:
 			r.Outcome(fmt.Sprintf("ok %s lines=%d", strings.Join(cc.Features(), ","), len(lines(want))))
